@@ -412,13 +412,16 @@ func init() {
 		o.storeFaults = 0
 		return o
 	}
-	runners["SEQ"] = histRunner("SEQ", "all3_run", true, 60, 1500, general)
+	runners["SEQ"] = histRunner("SEQ", "all4_run", true, 60, 1500, general)
 	runners["C01"] = histRunner("C01", "c01_run", false, 250, 3000, outbound)
 	runners["C02"] = histRunner("C02", "c02_run", false, 250, 3000, func(r *rng, i int) seqOpts { o := outbound(r, i); o.adoptRate = pick(r, 6, 12); return o })
 	runners["C03"] = histRunner("C03", "c03_run", false, 250, 3000, func(r *rng, i int) seqOpts { o := outbound(r, i); o.max1 = 0; return o })
 	runners["C04"] = histRunner("C04", "c04_run", false, 250, 3000, inbound)
 	runners["C05"] = histRunner("C05", "c05_run", false, 250, 3000, outbound)
 	runners["C07"] = histRunner("C07", "c07_run", false, 250, 3000, inbound)
+	runners["C10"] = histRunner("C10", "c10_run", false, 250, 3000, general)
+	runners["C11"] = histRunner("C11", "c11_run", false, 250, 3000, func(r *rng, i int) seqOpts { o := general(r, i); o.hostile = r.chance(1, 3); return o })
+	runners["C12"] = histRunner("C12", "c12_run", false, 250, 3000, general)
 	runners["C13"] = histRunner("C13", "c13_run", false, 250, 3000, hostile)
 	runners["C14"] = histRunner("C14", "c14_run", false, 250, 3000, general)
 	runners["C16"] = histRunner("C16", "c16_run", true, 200, 2000, func(r *rng, i int) seqOpts {
